@@ -35,7 +35,10 @@
     (d) draw_to_term_spec_top : one draw_to_term with Top alignment from ready (C ++ F), |F| = n:
                               n' = bar_rows P W, the new cursor_below flag, P = [] -> ready C;
                               P = ls <> [] -> ready (C ++ R), t_col <> 0, reach' = min H (reach - n + |R|)
-        draw_to_term_top_eq : the call list of draw_to_term (Top) = erase ++ paint ++ [TFlush]
+        draw_to_term_top_eq : (n <= H) the call list of draw_to_term (Top) = erase ++ paint ++ [TFlush];
+                              draw_to_term_top_eq_min: for any n, with the count capped at H (fix 7d42cff);
+                              new cursor_below = false iff the loop painted a line (fix dadbe71): the
+                              flag conjunct of draw_to_term_spec_top is now `match painted ls W H 0 with ...`
         (Bottom alignment / shift: not covered here.)
     C19 geometry: chunks_length, wrapped_height_chunks, visual_line_count_wrap, filler_length.
     ============================================================================== *)
@@ -847,17 +850,46 @@ Section PaintSpec.
 End PaintSpec.
 
 (* ------------------------------------------------------------------ (d) draw_to_term, Top alignment *)
-Lemma draw_to_term_top_eq ls n below W H :
+Lemma paint_nil_painted W H : forall ls idx total real,
+  match fst (paint ls idx total W H real) with [] => painted ls W H real = [] | _ => painted ls W H real <> [] end.
+Proof.
+  intros ls idx total real. destruct ls as [|l r]; [reflexivity|]. cbn [paint painted].
+  destruct (is_bar l && (H <? real + wrapped_height l W)%N); [reflexivity|].
+  destruct (paint r (idx + 1) total W H (if is_bar l then (real + wrapped_height l W)%N else real)) as [ops rf].
+  cbn [fst]. destruct (idx =? 0)%N; cbn [app]; discriminate.
+Qed.
+
+(** the call list of draw_to_term under Top alignment; the count is capped at the height first (fix
+    7d42cff); the new cursor_below flag: false iff the loop painted a line (fix dadbe71) *)
+Lemma draw_to_term_top_eq_min ls n below W H :
+  draw_to_term ls n Top below W H =
+    ((if below && (0 <? N.min n H)%N then [TUp 1] else []) ++ clear_ops (N.min n H)
+       ++ fst (paint ls 0 (N.of_nat (length ls)) W H 0) ++ [TFlush],
+     snd (paint ls 0 (N.of_nat (length ls)) W H 0),
+     match painted ls W H 0 with
+     | [] => if (N.min n H =? 0)%N then below else true
+     | _ => false
+     end).
+Proof.
+  unfold draw_to_term. pose proof (paint_nil_painted W H ls 0 (N.of_nat (length ls)) 0) as Hp.
+  destruct (paint ls 0 (N.of_nat (length ls)) W H 0) as [pops real].
+  cbn [fst snd N.eqb negb orb N.to_nat repeat app] in *. rewrite N.add_0_r.
+  assert (Hfp : full_pad ls 0 H = false) by (destruct ls; reflexivity). rewrite Hfp. cbn [negb].
+  destruct pops as [|o pops].
+  - rewrite Hp. destruct (N.min n H =? 0)%N; reflexivity.
+  - destruct (painted ls W H 0); [congruence | reflexivity].
+Qed.
+
+Lemma draw_to_term_top_eq ls n below W H : (n <= H)%N ->
   draw_to_term ls n Top below W H =
     ((if below && (0 <? n)%N then [TUp 1] else []) ++ clear_ops n
        ++ fst (paint ls 0 (N.of_nat (length ls)) W H 0) ++ [TFlush],
      snd (paint ls 0 (N.of_nat (length ls)) W H 0),
-     match ls with [] => if (n =? 0)%N then below else true | _ => false end).
-Proof.
-  unfold draw_to_term. destruct (paint ls 0 (N.of_nat (length ls)) W H 0) as [pops real].
-  cbn [fst snd N.eqb negb orb N.to_nat repeat app]. rewrite N.add_0_r.
-  destruct ls; cbn [negb]; [destruct (n =? 0)%N|]; reflexivity.
-Qed.
+     match painted ls W H 0 with
+     | [] => if (n =? 0)%N then below else true
+     | _ => false
+     end).
+Proof. intros Hn. rewrite draw_to_term_top_eq_min. now rewrite N.min_l by exact Hn. Qed.
 
 Lemma run_ops_flush W H t ops : run_ops W H t (ops ++ [TFlush]) = run_ops W H t ops.
 Proof. now rewrite run_ops_app. Qed.
@@ -897,7 +929,7 @@ Section DrawSpec.
     let t' := run_ops Wn Hn t (fst (fst (draw_to_term ls n Top below W H))) in
     snd (fst (draw_to_term ls n Top below W H)) = bar_rows P W
     /\ snd (draw_to_term ls n Top below W H)
-       = match ls with [] => if (n =? 0)%N then below else true | _ => false end
+       = match painted ls W H 0 with [] => if (n =? 0)%N then below else true | _ => false end
     /\ (P = [] -> ready Wn Hn C t' /\ reach t' = reach t - N.to_nat n
                   /\ ((1 <= n)%N -> t_col t' = 0) /\ (n = 0%N -> t' = t))
     /\ (P <> [] -> exists k,
@@ -909,7 +941,11 @@ Section DrawSpec.
   Proof using HW HH.
     assert (HWn : 1 <= Wn) by (unfold Wn; lia).
     assert (HHn : 1 <= Hn) by (unfold Hn; lia).
-    intros Hr HF Hn' Hb. cbv zeta. rewrite draw_to_term_top_eq. cbn [fst snd].
+    intros Hr HF Hn' Hb. cbv zeta.
+    assert (HnH : (n <= H)%N).
+    { pose proof (ready_vis _ _ _ _ Hr) as Hv. unfold reach in Hn'.
+      destruct (Nat.eqb (t_col t) 0); unfold Hn in *; lia. }
+    rewrite (draw_to_term_top_eq ls n below W H HnH). cbn [fst snd].
     rewrite !app_assoc, run_ops_flush, run_ops_app.
     destruct (erase_phase C F t n below Hr HF Hn' Hb) as (Hr1 & Hre1 & Hc1 & Hz1).
     set (t1 := run_ops Wn Hn t ((if below && (0 <? n)%N then [TUp 1] else []) ++ clear_ops n)) in *.
